@@ -316,6 +316,9 @@ def lock_identity(ctx, F):
             if b.find_path(list(b.succ(s)), {bi}, removed=set(cs), sensitive=False) is not None:
                 bad.append('%s at %s' % (names[0], b.loc(bi)))
         w = lib.ok_return_unreachable_avoiding(b, cs, sources=[s]) if cs else ['?']
+        # ... and a negative answer of the check is an error of the function (not looked at = not checked)
+        unheeded = [b.loc(c) for c in cs if not lib.result_err_targets(b, c)]
         ctx.ob('1l locked-file-is-the-file-at-the-path %s' % b.path, 'K2-order', b.path,
-               'after the lock was taken, the identity of the locked file (device, inode) is compared with the file at the path before anything else is touched, on every path',
-               bool(cs) and not bad and w is None, 'no identity check after the lock' if not cs else ('file access before the check: %s' % bad if bad else 'success path without the check: %s' % lib.short_path(b, w)), b.loc(s))
+               'after the lock was taken, the identity of the locked file (device, inode) is compared with the file at the path before anything else is touched, on every path, and a mismatch ends the function with an error',
+               bool(cs) and not bad and w is None and not unheeded,
+               'no identity check after the lock' if not cs else ('file access before the check: %s' % bad if bad else ('the result of the check at %s is not examined' % unheeded if unheeded else 'success path without the check: %s' % lib.short_path(b, w))), b.loc(s))
